@@ -233,6 +233,22 @@ fn brief(m: &str) -> String {
     format!("{}...[{} bytes, {:016x}]", m.chars().take(36).collect::<String>(), m.len(), h)
 }
 
+/// A service whose reply is a raw body (not a framed message): the bytes of the request's data, as they are.
+pub struct RawEcho;
+impl RpcService for RawEcho {
+    fn register_handlers(registry: &mut ServiceRegistry<Self>) {
+        registry.add_handler::<WithVec>();
+    }
+}
+#[datacake_rpc::async_trait]
+impl Handler<WithVec> for RawEcho {
+    type Reply = datacake_rpc::Body;
+    async fn on_message(&self, msg: Request<WithVec>) -> Result<Self::Reply, Status> {
+        let v: WithVec = msg.deserialize_view().map_err(|_| Status::internal("deserialize"))?;
+        Ok(datacake_rpc::Body::from(v.data))
+    }
+}
+
 fn code_for(id: u64) -> ErrorCode {
     match id % 5 {
         0 => ErrorCode::ServiceUnavailable,
@@ -378,6 +394,7 @@ pub async fn record() {
     let runs = Arc::new(AtomicU64::new(0));
     let (server, addr) = crate::registry::listen_somewhere().await;
     server.add_service(Echo { runs: runs.clone() });
+    server.add_service(RawEcho);
     let raw = hyper::Client::builder().http2_only(true).build_http::<hyper::Body>();
     let mut wire_events = 0u64;
     let sample = WithVec { id: 5, data: vec![1, 2, 3, 4, 5, 6, 7, 8, 9] };
@@ -472,6 +489,23 @@ pub async fn record() {
     small_rt!(Flag, "Flag", flags);
     small_rt!(Short, "Short", shorts);
     small_rt!(Arr5, "Arr5", arrs);
+    // replies that are raw bodies (streamed, not framed): the client reads exactly the bytes the handler produced
+    {
+        let raw_client = RpcClient::<RawEcho>::new(Channel::connect(addr));
+        for size in [0usize, 1, 3, 4, 5, 1023, 32 << 10, (1 << 20) + 1, if thorough { 9 << 20 } else { 3 << 20 }] {
+            let v = WithVec { id: size as u64, data: (0..size).map(|i| (i * 7 % 253) as u8).collect() };
+            let r = raw_client.send(&v).await;
+            let (ok, same) = match r {
+                Ok(body) => match hyper::body::to_bytes(body.into_inner()).await {
+                    Ok(bytes) => (true, bytes.as_ref() == v.data.as_slice()),
+                    Err(_) => (false, false),
+                },
+                Err(_) => (false, false),
+            };
+            rt += 1;
+            writeln!(f, "{}", json!({"ev": "roundtrip", "type": "RawBody", "sent": digest(&v.data), "ok": ok, "replyEqualsSent": same, "handlerRuns": 1})).unwrap();
+        }
+    }
     // handler errors: code and message must reach the client unchanged
     let mut errs = 0u64;
     // message sizes: small ones, every size around the usual small-buffer limits, and large ones
